@@ -55,8 +55,9 @@ pub fn nonempty_path_var() -> (r: Option<OsString>)
 { unimplemented!() }
 
 // ---------------------------------------------------------------- PATH splitting, as data
-// the non-empty, colon-free, maximal runs of a PATH value, in order (what split_path must yield: bounded Kani harness b_split_path_b3)
-pub uninterp spec fn segments(path: Seq<u8>) -> Seq<Seq<u8>>;
+// the non-empty, colon-free, maximal runs of a PATH value, in order; the real tokenizer (the closure inside split_path) is PROVED to
+// yield exactly these, one per call, in unit splitpath
+//@include segments.rs
 pub open spec fn max_len(s: Seq<Seq<u8>>) -> nat decreases s.len() {
     if s.len() == 0 { 0 } else { let m = max_len(s.drop_last()); if s.last().len() > m { s.last().len() } else { m } }
 }
